@@ -25,7 +25,7 @@ func init() {
 	Register(&Property{
 		ID:             "C07",
 		Run:            runC07,
-		Rule:           "runs = 1-4 batches of 2-8 concurrent registration requests (valid for 3 candidate keys and for degenerate ones - the temporary key itself, the all-zero key -, wrong signer, altered key, replays; in some batches every write to the key file fails) released in seeded orders, interleaved with restarts and with equipment / server / migration authority attempts signed by temp key, losers and winner; non-trivial = at least two valid registrations for different keys competed in one batch; distinct = distinct decision signatures",
+		Rule:           "runs = 1-4 batches of 2-8 concurrent registration requests (valid for 3 candidate keys and for degenerate ones - the temporary key itself, the all-zero key -, wrong signer, altered key, replays; in some batches every write to the key file fails; a sixth of the runs start on the empty key file a crash may leave) released in seeded orders, interleaved with restarts and with equipment / server / migration authority attempts signed by temp key, losers and winner; non-trivial = at least two valid registrations for different keys competed in one batch; distinct = distinct decision signatures",
 		Real:           []string{"RegisterGCAHandler/registerGCA/saveGCAKey", "loadGCAPubkey at restart", "AuthorizeEquipmentHandler, AuthorizedServersHandlerPOST, EquipmentMigrateHandler authority checks"},
 		Stub:           []string{"socket listeners; concurrency is the seeded release order of request tasks (one critical section per registration) - real parallel execution is covered by C13's race mode"},
 		NotInjected:    []string{"torn or lost writes after power loss", "fsync ordering", "failing writes on files other than gcaPubKey.dat (that one is injected: disk.write-fails)", "wall clock moving backwards (not expressible in a synctest bubble)"},
